@@ -439,6 +439,10 @@ func parseRealms(lines []string) (realms []Realm, err error) {
 				start = i
 				p := strings.Split(l, "=")
 				name = strings.TrimSpace(p[0])
+				if strings.Contains(l, "}") {
+					// a block has to be closed on a line of its own
+					return nil, fmt.Errorf("realm configuration line invalid: %s", l)
+				}
 			}
 		}
 		if strings.Contains(l, "}") {
